@@ -572,6 +572,44 @@ async fn id_issued_again_case(seed: u64) -> Out {
 		bad!("subscribe-failed/accepted-subscription", "setup A");
 		return out;
 	};
+	// variant: the server hands out the id again although A is still live: that answer must be refused, A goes on
+	if r.chance(1, 4) {
+		let c = client.clone();
+		let t = tokio::spawn(async move { c.subscribe::<Value, _>("sub", rpc_params!["b"], "unsub").await.map(|_| ()) });
+		settle().await;
+		serve(&mut srv, &sub_id, &mut out);
+		settle().await;
+		match tokio::time::timeout(Duration::from_secs(30), t).await {
+			Ok(Ok(Err(_))) => {}
+			Ok(Ok(Ok(()))) => bad!("subscribe-succeeded/on-the-id-of-a-live-subscription", "a subscribe call answered with id {sub_id}, which a live subscription on this connection carries, produced a second stream"),
+			other => bad!("subscribe-not-completed/on-the-id-of-a-live-subscription", "{other:?}"),
+		}
+		out.history.push("a second subscribe was answered with the id of the live subscription A".into());
+		for k in 0..2 {
+			srv.push_text(sub_notif("m", &sub_id, json!({"gen": "a", "seq": k})));
+			settle().await;
+			match tokio::time::timeout(Duration::from_millis(50), a.next()).await {
+				Ok(Some(Ok(v))) if v["seq"] == json!(k) => out.items_yielded += 1,
+				other => {
+					bad!("item-missing/live-subscription", "after another subscribe was answered with A's id, A's notification {k}: {other:?}");
+					break;
+				}
+			}
+		}
+		let stray = serve(&mut srv, &sub_id, &mut out);
+		if stray != 0 {
+			bad!("unsubscribe-count/live-subscription", "{stray} unsubscribe request(s) naming the live subscription's id went out");
+		}
+		drop(a);
+		settle().await;
+		settle().await;
+		let n = serve(&mut srv, &sub_id, &mut out);
+		if n != 1 {
+			bad!("unsubscribe-count/drop", "{n} unsubscribe request(s) after A was dropped, expected exactly 1");
+		}
+		drop(client);
+		return out;
+	}
 	// A ends: server close, or lag (more than `buffer` unread notifications)
 	let by_lag = r.chance(1, 3);
 	if by_lag {
@@ -710,8 +748,15 @@ async fn full_queue_drop_case(seed: u64) -> Out {
 		callers.push(tokio::spawn(async move { c.request::<Value, _>("call", rpc_params![i]).await.map_err(|e| err_kind(&e)) }));
 		settle().await;
 	}
-	out.history.push("transport blocked, request queue full; the consumer drops the stream".into());
-	drop(h);
+	let explicit = r.chance(1, 3);
+	let mut unsub_task = None;
+	if explicit {
+		out.history.push("transport blocked, request queue full; the consumer calls unsubscribe()".into());
+		unsub_task = Some(tokio::spawn(h.unsubscribe()));
+	} else {
+		out.history.push("transport blocked, request queue full; the consumer drops the stream".into());
+		drop(h);
+	}
 	settle().await;
 	// unblock
 	*srv.ctl.send_gate.lock().unwrap() = None;
@@ -741,6 +786,24 @@ async fn full_queue_drop_case(seed: u64) -> Out {
 	};
 	answer(&mut srv, &mut unsubs, &mut out);
 	settle().await;
+	if let Some(t) = unsub_task {
+		// an explicit unsubscribe is not best effort: it waits for room in the queue, the request goes out, the call returns
+		for _ in 0..4 {
+			settle().await;
+			answer(&mut srv, &mut unsubs, &mut out);
+		}
+		if !matches!(tokio::time::timeout(Duration::from_secs(30), t).await, Ok(Ok(Ok(())))) {
+			out.violations.push(("unsubscribe-stuck/explicit-with-full-queue".into(), "unsubscribe() called while the request queue was full did not return after the transport was unblocked".into()));
+		}
+		if unsubs != 1 {
+			out.violations.push(("unsubscribe-count/explicit-with-full-queue".into(), format!("{unsubs} unsubscribe request(s) for an explicit unsubscribe() issued while the request queue was full, expected exactly 1")));
+		}
+		for t in callers {
+			let _ = tokio::time::timeout(Duration::from_secs(30), t).await;
+		}
+		drop(client);
+		return out;
+	}
 	if with_notification {
 		srv.push_text(sub_notif("m", &sub_id, json!({"seq": 1})));
 		out.history.push("server -> a further notification for the dropped subscription".into());
